@@ -46,6 +46,10 @@ CHECKS['C19'] = dict(engine='T', level='exploration', design='5/C19',
    text='seeded search over thread schedules: the real lib/async (runtime, queue, worker, console worker) and lib/port (timer, sync) code runs on real threads that a seeded scheduler releases one at a time at every intercepted synchronisation or blocking call (mutex, condition variable incl. spurious wake-ups, eventfd, epoll, stdin, sleep, clock are modelled, timed waits use a virtual clock, no runnable thread and no deadline is a detected deadlock); scenarios: concurrent completion posts/wake-ups vs. the waiting backend, multi-producer queue under every overflow policy, worker create/stop/join/destroy at every point of its life, timer start/stop/cleanup, console worker with EOF and shutdown; oracles: every completion delivered exactly once with its own key and data, pending notification ends a wait, per-producer FIFO and conservation for the queue, stop/join/cleanup terminate within virtual-time bounds, no callback after stop returns; a second batch runs the same generator on a ThreadSanitizer build for the race clause. Sampling, not proof.',
    note='the poll and IOCP back ends are not built on Linux and not covered; the driver globals touched by the timer callback (heart_beat_flag) are not linked into this engine; TSan sees lib/async and lib/port only, the simulator annotates the sync objects it models',
    technique='deterministic simulation with fault injection (real threads serialised by a seeded scheduler at intercepted sync points, virtual clock, ThreadSanitizer batch)')
+CHECKS['C16'] = dict(engine='W-sweep', level='fault_enumeration', design='5/C16',
+   text='per scenario (a seeded set of savable values written as LPC source: int64 extremes, integral/tiny/huge floats, strings over escape-worthy bytes, nested arrays/mappings/classes, empty containers, shared sub-values, object references, static variables) the fault-free run checks save_variable/restore_variable and save_object/restore_object round trips with a deep LPC comparison; then one simulated run per crash point of a second save over an existing good save file (the simulated disk fails every mutating file call from call n on, all n: the surviving file must be the old one byte for byte or a complete new one, and must restore) and one run per damaged text (truncations and structural-character replacements spread over each save text and each value text) restored with restore_object/restore_variable, which must return or raise an LPC error with sanitizers clean. Crash points are enumerated per scenario; values and damage positions are sampled.',
+   note='crash = process crash at a file-call boundary (every stdio flush is a visible call through fopencookie); power-loss reordering not modelled; strings restricted to 7-bit bytes (the driver treats strings as UTF-8)',
+   technique='deterministic simulation with fault injection (simulated file layer with crash points at every mutating call, damaged stored text)')
 PENDING = 'check not built yet (work in progress, see DESIGN.md section 10)'
 
 def main():
